@@ -118,6 +118,9 @@ impl MT110 {
         // Note: Max 10 repetitions (NVR C1) and currency consistency (NVR C2)
         // are validated in validate_network_rules(), not during parsing
 
+        // Reject content left after the last field of the message
+        verify_parser_complete(&parser)?;
+
         Ok(MT110 {
             field_20,
             field_53a,
